@@ -56,5 +56,50 @@ def run_rt(doc, fmt, opts, voc):
         res["exc"] = "de:" + type(e).__name__
         return res
     res["back"] = proj_doc(back, voc)
+    fr = freshness(text, fmt, back, res["back"], voc)
+    if fr is not None:
+        res["fresh"] = fr
     res["stage"] = "done"
     return res
+
+
+def _mutate(d):
+    """Every kind of follow-up modification C12 names, on a document just read."""
+    d.add_namespace("mut", "http://c.example/mut#")
+    if d.get_default_namespace() is None:
+        d.set_default_namespace("http://c.example/dflt#")
+    for r in list(d.get_records())[:2]:
+        r.add_attributes([("mut:touched", 1)])
+    d.entity("mut:added")
+    for b in list(d.bundles)[:1]:
+        b.add_namespace("mutb", "http://c.example/mutb#")
+        b.entity("mutb:added")
+        for r in list(b.get_records())[:1]:
+            r.add_attributes([("mutb:touched", 1)])
+    d.bundle("mut:newbundle")
+
+
+def freshness(text, fmt, back, back_proj, voc):
+    """C12 for deserialisation: the same text read again gives another object; modifying the first
+    result changes neither the second (compared with its own projection taken before) nor what a
+    third read returns.  The RDF reader is not deterministic across reads of one text (blank-node
+    order), so for rdf the third read is not compared."""
+    out = {"distinct": True, "frame": True, "again": True, "exc": "none"}
+    try:
+        twin = ProvDocument.deserialize(content=text, format=fmt)
+    except Exception:
+        if fmt == "rdf":
+            return None          # a reader that refuses a text it accepted a moment ago: C07's subject
+        out["exc"] = "reread"
+        return out
+    try:
+        out["distinct"] = twin is not back and all(x is not y for x in twin.get_records() for y in back.get_records()) \
+            and all(x is not y for x in twin.bundles for y in back.bundles)
+        before = proj_doc(twin, voc)
+        _mutate(back)
+        out["frame"] = proj_doc(twin, voc) == before
+        if fmt != "rdf":
+            out["again"] = proj_doc(ProvDocument.deserialize(content=text, format=fmt), voc) == before
+    except Exception as e:
+        out["exc"] = type(e).__name__
+    return out
